@@ -1,15 +1,36 @@
 from verif import Q
 
 META = {
- "level_text": "Bounded symbolic model checking (CBMC) of the real record-decryption functions with every byte of the record body symbolic: acceptance is equivalent to an RFC reference (CBC) / to full-tag equality with the stub authenticator over the specified AAD and nonce (AEAD). Partial: the structural half of the property; unforgeability of the real MACs is assumed (idealised stub primitives), sessions/45 suites/drop-dup-reorder are outside.",
+ "level_text": "Bounded symbolic model checking (CBMC) of the real record-decryption functions with every byte of the record body symbolic: acceptance is equivalent to an RFC reference (CBC) / to an RFC 5288 / 6655+3610 / 7905 reference, i.e. full-tag (16 bytes, 8 for CCM_8) equality with the stub authenticator over the specified AAD and nonce (AEAD), same plaintext region and bytes on accept, seq advanced by one either way, check_length equal to the closed-form interval for all rlen. Partial: the structural half of the property; unforgeability of the real MACs is assumed (idealised stub primitives), sessions/45 suites/drop-dup-reorder are outside.",
  "level_note": "Trusted: CBMC; toy cipher and toy MAC stand-ins bound at BearSSL's own vtable/link seams (listed in assumptions); record lengths concrete per query.",
  "technique": "bounded symbolic model checking (CBMC/SAT): differential equivalence of real decrypt functions vs RFC reference, all record bytes symbolic",
  "assumptions": [
   "block cipher = toy CBC class (x -> x^K with real CBC chaining) behind br_block_cbcdec_class",
   "HMAC = toy MAC (sum/rotate accumulator) bound at the link-time seam br_hmac_{key_init,init,update,out,outCT}; the toy outCT asserts its min<=len<=max precondition",
   "record body length, MAC length, block size and explicit/implicit IV are concrete per query and enumerated by the driver",
+  "AEAD (C02.b): block cipher behind br_block_ctr_class / br_block_ctrcbc_class = toy 16-byte block function (byte sum + neighbour byte + key) with the documented CTR / CTR+CBC-MAC semantics; br_ghash = toy accumulator honouring the 16-byte-block zero-padding contract; br_chacha20_run / br_poly1305_run = toy keystream and a toy 16-byte authenticator over (MAC key from block 0, aad_len, aad, len, ciphertext) (harness/C02_aead_stubs.h); src/aead/ccm.c is the real file",
+  "AEAD (C02.b): the reference is written in the harness from RFC 5288 + SP 800-38D (GCM), RFC 6655 + RFC 3610 (CCM/CCM_8), RFC 7905 (ChaCha20+Poly1305) with AAD = seq||type||version||plaintext length of RFC 5246 6.2.3.3; plaintext length and key length are concrete per query, check_length is compared for all size_t rlen",
  ],
  "outside_claim": ["unforgeability of HMAC/GHASH/Poly1305", "whole sessions, drop/dup/reorder across records (reduced to seq in MAC input, C20)", "all 45 suites with real ciphers", "record bodies longer than the listed lengths"],
+ "mutants_tried": [
+  "C02.b caught: gcm_decrypt compares 15 tag bytes -> aead-gcm-* 'accepts iff the RFC 5288 reference accepts'",
+  "C02.b caught: GCM AAD length field = ciphertext+overhead length instead of plaintext length -> aead-gcm-*",
+  "C02.b caught: GCM nonce copied from record offset 1 -> aead-gcm-*",
+  "C02.b caught: gcm_check_length upper bound 16384+25 -> 'gcm_check_length admits exactly 24 <= rlen <= 16384+24'",
+  "C02.b caught: GCM data keystream starts at counter 1 -> aead-gcm-P>=1 'same plaintext bytes as the reference'",
+  "C02.b caught: gcm_decrypt advances seq by a tag-dependent extra step -> 'sequence number advances by exactly one'",
+  "C02.b caught: br_ccm_check_tag compares 16 bytes for CCM_8 -> aead-ccm8-* (bounds violation on tmp[] and acceptance mismatch)",
+  "C02.b caught: br_ccm_check_tag compares tag_len-1 bytes -> aead-ccm-*, aead-ccm8-*",
+  "C02.b caught: CCM AAD length field = record length -> aead-ccm*",
+  "C02.b caught: CCM nonce copied from record offset 1 -> aead-ccm*",
+  "C02.b caught: ccm_check_length upper bound exclusive -> 'ccm_check_length admits exactly ...'",
+  "C02.b caught: CCM B_0 without the Adata flag (src/aead/ccm.c) -> aead-ccm*",
+  "C02.b caught: ccm_decrypt runs br_ccm_run in encrypt direction (MAC over ciphertext) -> aead-ccm-P>=1",
+  "C02.b caught: chapol_decrypt compares 15 tag bytes -> aead-chapol-*",
+  "C02.b caught: ChaPol nonce XORs only the low 4 bytes of seq -> aead-chapol-*",
+  "C02.b caught: ChaPol AAD length field = ciphertext+tag length -> aead-chapol-*",
+  "C02.b caught: chapol_check_length lower bound exclusive -> 'chapol_check_length admits exactly 16 <= rlen <= 16384+16'",
+ ],
 }
 
 def queries():
@@ -23,4 +44,26 @@ def queries():
                     defs=["-DRL=%d" % rl, "-DML=%d" % ml, "-DEXPL=%d" % ex, "-DTOY_BLK=%d" % blk],
                     unwind=rl + 2, tier=tier, timeout=900 if tier == "thorough" else 300,
                     desc="cbc_decrypt == RFC 5246 reference for every %d-byte record body, mac_len %d, %s IV, block %d" % (rl, ml, "explicit" if ex else "implicit", blk)))
+    # ---- C02.b AEAD (GCM / CCM / CCM_8 / ChaCha20+Poly1305) ----
+    # (mode, PLEN, extra defs, tier)
+    aead = []
+    for pl in (0, 1, 17, 33):
+        aead += [("gcm", pl, [], "quick"), ("ccm", pl, ["-DTAGLEN=16"], "quick"),
+                 ("ccm8", pl, ["-DTAGLEN=8"], "quick"), ("chapol", pl, [], "quick")]
+    aead += [("gcm", 16, ["-DKL=32"], "quick"), ("ccm", 16, ["-DTAGLEN=16", "-DKL=32"], "quick")]
+    for pl in (48, 64):
+        aead += [("gcm", pl, [], "thorough"), ("ccm", pl, ["-DTAGLEN=16"], "thorough"),
+                 ("ccm8", pl, ["-DTAGLEN=8"], "thorough"), ("chapol", pl, [], "thorough")]
+    aead += [("gcm", 128, [], "thorough"), ("ccm", 128, ["-DTAGLEN=16"], "thorough"), ("ccm8", 100, ["-DTAGLEN=8"], "thorough"),
+             ("chapol", 100, [], "thorough"), ("chapol", 256, [], "thorough"), ("gcm", 256, [], "thorough")]
+    what = {"gcm": ("C02_aead_gcm.c", [], "gcm_decrypt/gcm_check_length == RFC 5288 reference (nonce = salt||explicit, AAD = seq||type||ver||plen, 16-byte tag)", 24),
+            "ccm": ("C02_aead_ccm.c", ["src/aead/ccm.c"], "ccm_decrypt/ccm_check_length over real ccm.c == RFC 6655/3610 reference (16-byte tag)", 24),
+            "ccm8": ("C02_aead_ccm.c", ["src/aead/ccm.c"], "ccm_decrypt/ccm_check_length over real ccm.c == RFC 6655/3610 reference (CCM_8: 8-byte tag)", 16),
+            "chapol": ("C02_aead_chapol.c", [], "chapol_decrypt/chapol_check_length == RFC 7905 reference (nonce = iv xor seq, AAD = seq||type||ver||plen, 16-byte tag)", 16)}
+    for (mode, pl, defs, tier) in aead:
+        h, units, d, over = what[mode]
+        kl = "-K32" if "-DKL=32" in defs else ""
+        qs.append(Q("aead-%s-P%d%s" % (mode, pl, kl), h, units=units, defs=["-DPLEN=%d" % pl] + defs,
+                    unwind=pl + 70, tier=tier, timeout=900 if tier == "thorough" else 300, backend="cadical",
+                    desc="%s; every %d-byte record body (plaintext length %d) symbolic, keys/iv/seq/type/version symbolic; check_length for all size_t rlen" % (d, pl + over, pl)))
     return qs
